@@ -161,6 +161,11 @@ def _verify(E, reg, qualname, rep, ghosts):
                     raise OutsideSubset(f"return value {res!r} does not fit declared type {rty}: {e}")
             frame = dict(entry_frame)
             frame["result"] = res
+            for m_ in (c.modifies or []):
+                # a container parameter mutated in place: contract clauses see its final value, old(p) the entry value
+                if m_ in entry_frame and isinstance(s.env.get(m_), SVal):
+                    frame[m_] = s.env[m_]
+                    frame.setdefault("__entry__", {})[m_] = entry_frame[m_]
             for gname, gexpr in c.ghost_exit.items():
                 gv = E.ev1p(parse_expr(gexpr), spec_state(E, s, frame, old=entry))
                 s.ghost[gname] = E.coerce(gv, s.ghost[gname].ty, s)
